@@ -856,11 +856,23 @@ impl Scanner for EntryScanner<'_> {
         // trim off everything to the left already.
         self.zonefile.buf.trim_to(self.zonefile.buf.start);
 
+        // Remember if we are inside a quoted value. If so the opening quote
+        // has already been skipped over, it is not part of the value.
+        let is_quoted = self.zonefile.buf.cat == ItemCat::Quoted;
+
         // Skip over symbols that don’t need converting at the beginning.
         while self.zonefile.buf.next_char_symbol()?.is_some() {}
 
+        // If a quoted token has ended already, the closing double quote has
+        // been skipped over. It is not part of the value either.
+        //
         // If we aren’t done yet, we have escaped characters to replace.
-        let mut write = self.zonefile.buf.start;
+        let mut write = if is_quoted && self.zonefile.buf.cat == ItemCat::None
+        {
+            self.zonefile.buf.start - 1
+        } else {
+            self.zonefile.buf.start
+        };
         while let Some(sym) = self.zonefile.buf.next_symbol()? {
             write += sym
                 .into_char()?
